@@ -118,14 +118,16 @@ theorem C02_chain_stops (env : Env) (ctx : Ctx) (schema : Val) (m : List (Key ×
 theorem C02_kind (recN : RecN) (ctx : Ctx) (s s' : NState) (f : Key) (tup : Bool) (rule : String)
     (cschema : List (Key × Val)) (xs : List Val)
     (h : seqPass recN ctx s f tup rule cschema xs = .ok s') :
-    ∃ ys, s'.m = Val.dset s.m f (.seq tup ys) := by
-  simp only [seqPass, bind, Except.bind] at h
+    s' = s ∨ ∃ ys, s'.m = Val.dset s.m f (.seq tup ys) := by
+  simp only [seqPass] at h
   split at h
-  · simp at h
-  · rename_i r _
-    simp only [pure, Except.pure, Except.ok.injEq] at h
+  · rename_i res cerrs _
+    simp only [Except.ok.injEq] at h
     subst h
-    exact ⟨r.1.map (·.2), rfl⟩
+    exact Or.inr ⟨res.map (·.2), rfl⟩
+  · simp only [Except.ok.injEq] at h
+    exact Or.inl h.symm
+  · simp at h
 
 /-- one step of the coercion pass on a *known* field without a `coerce` rule of
     its own: nothing happens, whatever `allow_unknown` says -/
